@@ -187,6 +187,13 @@ fn cases_for_value(seed: u64, i: u64, thorough: bool) -> Vec<Case> {
         present_permille: [0, 300, 500, 500, 800, 1000][r.below(6)],
         sink: SinkSpec::Fmt(FmtPlan::None),
     };
+    // long vector parts, on the types where that is cheap (a vector part, no matrix part): lengths at and just above
+    // powers of two, where batched or chunked rendering would change behaviour
+    let base = if matches!(name, "DualDVec64" | "DualDVec32" | "DualVec<Dual64,Dyn>" | "DualVec<Dual32,Dyn>") && r.chance(200) {
+        Case { max_dim: [65, 129, 257, 513, 1024, 1025, 1031, 2049, 4097][r.below(9)], ..base }
+    } else {
+        base
+    };
     let mut cases = vec![base.clone()];
     let with = |s: SinkSpec| Case { sink: s, ..base.clone() };
     // learn the shape of the fault-free history (number of sink calls) to place faults inside the operation
